@@ -1077,9 +1077,12 @@ def shrink_(case):
 # ------------------------------------------------------------------ generators
 
 
-def gen_params(rng, kind, name):
+def gen_params(rng, kind, name, efjc="mix"):
     """a parameter dictionary in the property's box: +-50 % around the defaults, twist parameters +-10 %,
-    L_c 0.3-30 um, offsets within +-0.05"""
+    L_c 0.3-30 um, offsets within +-0.05.  The eFJC is used in both of the box's regimes (`efjc` = "ss", "stiff" or
+    "mix" = either with equal chance): an ssDNA-like Kuhn length scale (0.5-2 nm) and the library's own default
+    L_p = 40 nm +-50 % (a stiff chain); only with the latter does 2 f L_p / kT reach the overflow guards of the code
+    (1/sinh^2 dropped from 300, coth = 1 from 500) inside the force range, i.e. only there are those branches run"""
     pd = {}
     for a, n in zip(KINDS[kind][2], leaf_names(kind, name)):
         if a == "Lc":
@@ -1089,7 +1092,8 @@ def gen_params(rng, kind, name):
         elif a in ("f_offset", "d_offset"):
             v = rng.uniform(-0.05, 0.05)
         elif a == "Lp" and kind == "efjc_d":
-            v = rng.uniform(0.5, 2.0)  # ssDNA Kuhn length scale
+            stiff = rng.chance(0.5) if efjc == "mix" else efjc == "stiff"
+            v = DEFAULTS[a] * rng.uniform(0.5, 1.5) if stiff else rng.uniform(0.5, 2.0)
         else:
             v = DEFAULTS[a] * rng.uniform(0.5, 1.5)
         pd[n] = float(v)
@@ -1111,6 +1115,16 @@ def gen_x(rng, kind, pd, name):
             return float(rng.loguniform(0.05, hi))
         if style == 1 and kind == "twlc_d":
             return float(g("Fc") * (1 + rng.choice([-1, 1]) * rng.loguniform(0.01, 0.3)))
+        if style in (1, 4) and kind == "efjc_d":
+            # on / one ulp beside / near the force at which 2 f Lp / kT crosses an overflow guard of the code
+            f0 = efjc_guard_force(rng.choice(EFJC_GUARDS), g("Lp"), g("kT"))
+            if 0.05 <= f0 <= hi:
+                c = rng.randint(0, 3)
+                if c == 0:
+                    return float(f0)
+                if c == 1:
+                    return float(math.nextafter(f0, rng.choice([-math.inf, math.inf])))
+                return float(min(max(f0 * (1 + rng.choice([-1, 1]) * rng.loguniform(1e-12, 0.3)), 0.05), hi))
         if style == 4 and kind == "twlc_d":
             # ON the boundary between the two coupling regimes (f == Fc bit for bit: both comparisons of the code
             # see equality), one ulp beside it, or very close to it
@@ -1137,6 +1151,20 @@ def gen_x(rng, kind, pd, name):
 
     z = bisect(eq, 0.0, 1.0 - 1e-12)
     return Lc * (z + (F / St if math.isfinite(St) else 0.0))
+
+
+EFJC_GUARDS = [300.0, 500.0]  # 2 f Lp / kT: 1/sinh^2 is dropped from 300 on, coth is set to 1 from 500 on
+
+
+def efjc_guard_force(thr, Lp, kT):
+    """the force at which the argument 2 f Lp / kT of the eFJC's hyperbolic functions reaches `thr` — as the derivative
+    code rounds it (f * (2 Lp / kT)) where a double does that exactly, else the nearest one"""
+    x1 = 2.0 * Lp / kT
+    f0 = thr / x1
+    for cand in (f0, math.nextafter(f0, math.inf), math.nextafter(f0, -math.inf)):
+        if cand * x1 == thr:
+            return cand
+    return f0
 
 
 FORCE_KINDS = ["odijk_f", "ms_f", "ems_f", "offset_f"]  # independent variable d
@@ -1175,7 +1203,7 @@ def case_depth_top(depth, counter):
     return -1  # offsets are allowed everywhere (an offset alone is a legal model)
 
 
-def gen_tree_case(rng, depth=2, allow_inv=True, tree=None, kink=False, kT=None):
+def gen_tree_case(rng, depth=2, allow_inv=True, tree=None, kink=False, kT=None, efjc="mix"):
     indep = rng.choice(["f", "d"])
     for _ in range(20):
         t = tree or gen_tree(rng, indep, depth, [0], allow_inv)
@@ -1188,7 +1216,7 @@ def gen_tree_case(rng, depth=2, allow_inv=True, tree=None, kink=False, kT=None):
         ls = leaves(t)
         pd = {}
         for l in ls:
-            for n, v in gen_params(rng, l[1], l[2]).items():
+            for n, v in gen_params(rng, l[1], l[2], efjc).items():
                 pd.setdefault(n, v)
         # offset parameters of off nodes
         def add_off(tr):
@@ -1353,12 +1381,36 @@ def cond_key(pn, trans):
     return "|".join(str(tr.get(n, n)) for n in pn)
 
 
+def same_kind_groups(pn):
+    """the model parameters that denote the same physical quantity of different parts of a composition (DNA/Lp,
+    prot/Lp ...): the groups with at least two members, in order of first appearance"""
+    by_kind = {}
+    for n in pn:
+        if n != "kT":
+            by_kind.setdefault(n.split("/")[-1], []).append(n)
+    return [(k, g) for k, g in by_kind.items() if len(g) > 1]
+
+
 def gen_trans(rng, pn, params, values, tag, allow_dups=True):
     """a random parameter transformation (of one data set, or of one condition shared by several): each model
-    parameter is kept, renamed to a fresh name, renamed to a name shared with others, pinned to a number, or merged
-    with another parameter of the same physical kind"""
+    parameter is kept, renamed to a fresh name, renamed to a name shared with others, pinned to a number, merged
+    with another parameter of the same physical kind (renamed ONTO that parameter's name), or — a quarter of the
+    transformations of a composition — two or more parameters of the same physical kind are renamed to one common NEW
+    name (of this data set / condition only, or the same name in every data set and model of the fit)"""
+    common = {}
+    groups = same_kind_groups(pn)
+    if allow_dups and groups and rng.chance(0.25):
+        picked = rng.sample(groups, rng.randint(1, len(groups)))
+        for kind, g in picked:
+            new = f"common/{kind}" if rng.chance(0.5) else f"common_{tag}/{kind}"
+            for n in rng.sample(g, rng.randint(2, len(g))):
+                common[n] = new
     trans = []
     for n in pn:
+        if n in common:
+            trans.append([n, common[n]])
+            values.setdefault(common[n], float(params[n] * rng.uniform(0.95, 1.05)))
+            continue
         c = rng.randint(0, 11)
         if n == "kT" and c < 9:
             continue
@@ -1481,6 +1533,11 @@ def gen_fit_case(rng, allow_dups=True, by_pattern=None):
 #   (style of label 0, style of the labels >= 1): "id" = untransformed, "rename" = one parameter gets a name of its
 #   own, "pin" = one parameter is fixed to a number
 SCOPE_STYLES = [("id", "rename"), ("id", "pin"), ("rename", "rename")]
+#   compositions with several parameters of the same physical kind (DNA/Lp, prot/Lp ...) additionally: "mergeOld" = the
+#   others of one kind are renamed ONTO the first one's name, "mergeNew" = all of one kind are renamed to one common NEW
+#   name, "mergeTwo" = two kinds are each renamed to a common new name; the kind rotates with the condition label
+MERGE_STYLES = [("mergeNew", "id"), ("mergeOld", "id"), ("id", "mergeNew"), ("mergeNew", "mergeNew"), ("mergeOld", "mergeNew"),
+                ("mergeTwo", "rename"), ("mergeNew", "pin")]
 
 
 def scope_trans(pn, params, values, lab, styles, tag):
@@ -1488,6 +1545,21 @@ def scope_trans(pn, params, values, lab, styles, tag):
     own = [n for n in pn if n != "kT"]
     if style == "id":
         return []
+    if style.startswith("merge"):
+        groups = same_kind_groups(pn)
+        if not groups:
+            return []
+        trans = []
+        for j in range(2 if style == "mergeTwo" else 1):
+            kind, g = groups[(lab + j) % len(groups)]
+            if style == "mergeOld":
+                trans += [[o, g[0]] for o in g[1:]]
+                continue
+            new = f"common_{tag}c{lab}/{kind}"
+            values.setdefault(new, float(params[g[0]] * (1.0 - 0.02 * (lab + 1))))
+            trans += [[o, new] for o in g if o not in dict((a, b) for a, b in trans)]
+        order = {n: i for i, n in enumerate(pn)}
+        return sorted(trans, key=lambda e: order[e[0]])
     n = own[-1] if lab == 0 else own[(lab - 1) % max(len(own) - 1, 1)]
     if style.endswith("Fc"):  # the critical force of the (first) twistable leaf itself is renamed / pinned
         n = [o for o in own if o.endswith("/Fc")][0]
@@ -1565,6 +1637,23 @@ def has_dup(case):
     return False
 
 
+def dup_styles(case):
+    """how the data sets that map two model parameters to one fit parameter do it: 'onto-model-parameter' (the common
+    name is the name of one of the merged parameters, which keeps it) / 'new-common-name' (every merged parameter is
+    renamed)"""
+    out = set()
+    for m in case["models"]:
+        pn = list(obj_of(m["tree"]).parameter_names)
+        for d in m["data"]:
+            tr = dict(d["trans"])
+            targets = [(n, tr.get(n, n)) for n in pn if isinstance(tr.get(n, n), str)]
+            for v in {v for _, v in targets}:
+                srcs = [n for n, w in targets if w == v]
+                if len(srcs) > 1:
+                    out.add("onto-model-parameter" if v in srcs else "new-common-name")
+    return out
+
+
 def corpus():
     import glob
     import json
@@ -1593,13 +1682,15 @@ def cases(tier, rng):
                 for o in (-0.05, 0.0, 0.07):
                     yield {"stream": "small-scope", "op": "base", "kind": kind, "x": x, "p": [o]}
             continue
-        for sLp, sSt, skT in [(a_, b_, c_) for a_ in scales for b_ in scales for c_ in kts]:
+        # the eFJC at an ssDNA-like L_p (1 nm) and at the library's default (40 nm, stiff: the overflow guards are passed)
+        lp_bases = [1.0, DEFAULTS["Lp"]] if kind == "efjc_d" else [DEFAULTS["Lp"]]
+        for sLp, sSt, skT, lp_base in [(a_, b_, c_, d_) for d_ in lp_bases for a_ in scales for b_ in scales for c_ in kts]:
                 for Lc in ((0.5, 16.0) if quick else (0.3, 2.7, 16.0, 30.0)):
                     p = []
                     for a in args:
                         v = DEFAULTS[a]
                         if a == "Lp":
-                            v = (1.0 if kind == "efjc_d" else v) * sLp
+                            v = lp_base * sLp
                         if a == "St":
                             v *= sSt
                         if a == "kT":
@@ -1613,6 +1704,12 @@ def cases(tier, rng):
                         # see f == Fc), one ulp and 1e-9 to either side
                         Fc = DEFAULTS["Fc"]
                         grid += [Fc, math.nextafter(Fc, math.inf), math.nextafter(Fc, 0.0), Fc * (1 + 1e-9), Fc * (1 - 1e-9)]
+                    if kind == "efjc_d":
+                        # the forces at which 2 f Lp / kT crosses an overflow guard: on it, one ulp and 1e-9 beside it
+                        for thr in EFJC_GUARDS:
+                            f0 = efjc_guard_force(thr, p[args.index("Lp")], p[args.index("kT")])
+                            if 0.05 <= f0 <= 60.0:
+                                grid += [f0, math.nextafter(f0, math.inf), math.nextafter(f0, 0.0), f0 * (1 + 1e-9), f0 * (1 - 1e-9)]
                     for gx in grid:
                         x = gx if indep == "f" else gx * Lc
                         if kind == "ms_f" and gx >= 0.97:
@@ -1665,15 +1762,17 @@ def cases(tier, rng):
     trees.append(["add", ["twlc_f", "DNA"], ["base", "odijk_f", "prot"]])
     reps = 1 if quick else 4
     for t in trees:
-        for j in range(reps):
-            for attempt in range(4):
-                sub = r0.fork(repr(t) + str(j) + ("" if attempt == 0 else f".{attempt}"))
-                c = gen_tree_case(sub, tree=t)
-                if c is None or not valid_everywhere(t, c["x"], c["params"]):
-                    continue
-                c["stream"] = "small-scope"
-                yield c
-                break
+        # compositions with an eFJC leaf: once with an ssDNA-like and once with a stiff chain (overflow guards passed)
+        for efjc in (("ss", "stiff") if "efjc" in repr(t) else ("mix",)):
+            for j in range(reps):
+                for attempt in range(4):
+                    sub = r0.fork(repr(t) + str(j) + ("" if attempt == 0 else f".{attempt}") + ("" if efjc != "stiff" else "stiff"))
+                    c = gen_tree_case(sub, tree=t, efjc=efjc)
+                    if c is None or not valid_everywhere(t, c["x"], c["params"]):
+                        continue
+                    c["stream"] = "small-scope"
+                    yield c
+                    break
     # the inverted models (built-in efjc_force / twlc_force and Model.invert() of every distance model) at the default
     # thermal energy and away from it: kT reaches the forward value, the forward Jacobian and the forward derivative
     # through separate arguments
@@ -1728,6 +1827,21 @@ def cases(tier, rng):
         for pat in ([0], [0, 1], [0, 1, 0]):
             for styles in SCOPE_STYLES + [("id", "pinFc"), ("renameFc", "rename")]:
                 layouts.append(([t], [pat], styles, [2, 1, 3], True))
+    # compositions with parameters of the same physical kind in several parts: data sets that rename two (three) of
+    # them onto one of them / to one common new name (the column of that fit parameter is the SUM of the sensitivities)
+    merge_trees = [
+        ["add", ["base", "odijk_d", "DNA"], ["base", "odijk_d", "prot"]],
+        ["add", ["add", ["base", "odijk_d", "DNA"], ["base", "ems_d", "prot"]], ["base", "efjc_d", "ss"]],
+    ]
+    if not quick:
+        merge_trees += [["add", ["base", "odijk_f", "DNA"], ["base", "ems_f", "prot"]],
+                        ["add", ["off", ["base", "odijk_d", "DNA"]], ["off", ["base", "twlc_d", "prot"]]]]
+    for t in merge_trees:
+        for pat in ([0], [0, 1], [0, 1, 0]):
+            for styles in MERGE_STYLES:
+                if max(pat) == 0 and styles[0] == "id":
+                    continue
+                layouts.append(([t], [pat], styles, [2, 1, 3], False))
     two = [["base", "odijk_d", "DNA"], ["base", "odijk_f", "prot"]]
     for pats in ([[0, 1, 0], [0, 1, 0]], [[0, 1], [0, 1, 0]], [[0, 1, 0], [0]], [[0, 0, 1], [0, 1, 1]]):
         for styles in SCOPE_STYLES:
@@ -1801,6 +1915,9 @@ def extra_coverage(results):
     tree_shapes = {"add": 0, "off": 0, "inv": 0}
     boundary = {"base": 0, "tree": 0, "fit": 0}  # cases with a sample exactly on f == Fc of a twistable leaf
     kt_off_default = {}  # per kind: cases whose kT differs from the default 4.11
+    efjc_arg = {"base: 2fLp/kT < 300": 0, "base: 300 <= 2fLp/kT < 500 (1/sinh^2 dropped)": 0, "base: 2fLp/kT >= 500 (coth = 1)": 0,
+                "compositions with a stiff eFJC leaf (Lp >= 20)": 0}
+    dup_style = {"onto-model-parameter": 0, "new-common-name": 0}
     for r in results:
         c = r["case"]
         try:
@@ -1813,6 +1930,14 @@ def extra_coverage(results):
             if c["op"] == "base" and "kT" in KINDS[c["kind"]][2] and c.get("stream") != "malformed":
                 if c["p"][KINDS[c["kind"]][2].index("kT")] != DEFAULTS["kT"]:
                     kt_off_default[c["kind"]] = kt_off_default.get(c["kind"], 0) + 1
+            if c["op"] == "base" and c["kind"] == "efjc_d" and c.get("stream") != "malformed":
+                x2 = 2.0 * c["x"] * c["p"][0] / c["p"][3]
+                efjc_arg[[k_ for k_ in efjc_arg][0 if x2 < 300 else 1 if x2 < 500 else 2]] += 1
+            if c["op"] == "tree" and any(l_[1] == "efjc_d" and c["params"][f"{l_[2]}/Lp"] >= 20 for l_ in leaves(c["tree"])):
+                efjc_arg["compositions with a stiff eFJC leaf (Lp >= 20)"] += 1
+            if c["op"] == "fit":
+                for st in dup_styles(c):
+                    dup_style[st] += 1
             if c["op"] == "tree" and c["params"].get("kT", DEFAULTS["kT"]) != DEFAULTS["kT"]:
                 for key in {"inv" if l_ == "inv" else l_ for l_ in ("efjc_f", "twlc_f", "inv") if f"'{l_}'" in repr(c["tree"])}:
                     kt_off_default[key] = kt_off_default.get(key, 0) + 1
@@ -1858,6 +1983,8 @@ def extra_coverage(results):
         "tree_shapes": tree_shapes,
         "samples_exactly_on_twlc_regime_boundary": boundary,
         "cases_with_kT_off_default": kt_off_default,
+        "efjc_overflow_guard_regimes": efjc_arg,
+        "fit_layouts_two_parameters_one_fit_parameter": dup_style,
         "fit_layouts": fit_layout,
         "exhaustive": False,
     }
@@ -1866,18 +1993,23 @@ def extra_coverage(results):
 RULE = (
     "corpus (F16 inputs) + small scope (every built-in model on a grid of 7 abscissas x parameter corners: L_p, S_t "
     "x{0.5,1,1.5}, kT x{0.92,1,1.3}, L_c in {0.3,2.7,16,30}; the twistable model additionally exactly ON its regime "
-    "boundary f == F_c, one ulp and 1e-9 to either side; every pairwise sum, the offset of every model, the inverse of "
+    "boundary f == F_c, one ulp and 1e-9 to either side; the eFJC at an ssDNA-like L_p (1 nm) AND at the library's "
+    "default L_p = 40 nm (stiff chain), there also on / one ulp / 1e-9 beside the forces at which 2 f L_p / kT "
+    "crosses the overflow guards 300 (1/sinh^2 dropped) and 500 (coth = 1) of the code; every pairwise sum, the offset of every model, the inverse of "
     "every distance model, efjc_force and twlc_force alone and in sums, each inverted model at the default kT and away "
-    "from it, nested examples; compositions and fits of the twistable model with a sample placed exactly on f == F_c "
+    "from it, nested examples, every composition with an eFJC leaf once ssDNA-like and once stiff; compositions and fits of the twistable model with a sample placed exactly on f == F_c "
     "through the offsets) + raw cubics (a, b, c) built from chosen roots (three real roots = trigonometric branch, "
     "one real root = Cardano branch; scale 0.1-1000; all three root indices) + seeded random over the property's box (parameters +-50 % of the defaults, twist "
-    "parameters +-10 %, L_c 0.3-30 um log-uniform, forces 0.05 pN .. 80 % of the validity limit (twistable model: a fifth of the forces on / one ulp beside / "
+    "parameters +-10 %, eFJC: half ssDNA-like L_p 0.5-2 nm, half 40 nm +-50 % with two fifths of the forces on / beside an overflow guard, L_c 0.3-30 um log-uniform, forces 0.05 pN .. 80 % of the validity limit (twistable model: a fifth of the forces on / one ulp beside / "
     "within 1e-12..1e-2 of F_c), distances obtained from such forces; random compositions of depth <= 3 with up to 6 leaves; fit layouts with 1-2 models, 1-3 data "
-    "sets each, 1-3 points, parameters renamed per data set / shared across data sets / merged inside a data set / "
+    "sets each, 1-3 points, parameters renamed per data set / shared across data sets / merged inside a data set (renamed "
+    "onto another model parameter of the same kind, or two or more of them renamed to one common NEW name) / "
     "pinned to numbers; half of the layouts draw the condition-sharing pattern of the data sets first and one "
     "transformation per condition) + small scope of fit layouts (every way 1-3 data sets of a model share conditions, "
     "in every order of appearance: 0 00 01 000 001 010 011 012, x conditions differing by a renamed / a pinned "
-    "parameter, x data sets of equal / different lengths; two-model fits with such patterns in both models) "
+    "parameter, x data sets of equal / different lengths; two-model fits with such patterns in both models; sums of "
+    "two / three models with parameters of the same physical kind, whose data sets rename them onto one of them / to "
+    "one common new name / two kinds at once, alone and next to untransformed, renamed, pinned conditions) "
     "+ an out-of-domain stream (zero, negative, NaN, infinite abscissas and parameters). "
     "Non-trivial: base = a derivative was returned; tree = a genuine composition; fit = more than one data set or a "
     "transformation; raw cubic = always."
